@@ -1,5 +1,178 @@
 // harness commands owned by the check of property C12 (see tools/props/C12.py)
-#[allow(unused_variables)]
+//
+//   c12vals [p<hex prelude source>] <item>...
+//       ONE Vm for the whole line; the items are built left to right and all stay rooted until the end.
+//       item := z (nil) | f | t | n<bits, decimal> | s<hex utf8> | c<hex name>   (class: global of module "main")
+//             | r<begin>:<end>     (Vm::new_root_obj_range: goes through the 8-entry range cache)
+//             | (<item>,<item>..)  (a NEW tuple; `()` is the empty tuple)
+//             | v (a new vector) | m (a new hash map) | @<i> (the i-th top-level item again: same object)
+//       Records:
+//         V <i> <hash | P> <hex display>     the argument of the single `write_u64` that `Hash::hash` performs on a
+//                                            recording hasher; P = the call panicked (unhashable)
+//         H <i> <1|0|?> <hex message|->      has_hash, observed through `{x: 1}` with the global x set to the value:
+//                                            1 = literal built, 0 = ValueError (with its message), ? = anything else
+//         E <i> <0/1 string>                 value i == value j for every j (Value::eq)
+use std::any::Any;
+use std::hash::{Hash, Hasher};
+
+use yarel::value::Value;
+use yarel::vm;
+
+#[derive(Default)]
+struct Recorder {
+    u64s: Vec<u64>,
+    other: usize,
+}
+
+impl Hasher for Recorder {
+    fn write(&mut self, _bytes: &[u8]) {
+        self.other += 1;
+    }
+    fn write_u64(&mut self, v: u64) {
+        self.u64s.push(v);
+    }
+    fn finish(&self) -> u64 {
+        *self.u64s.last().unwrap_or(&0)
+    }
+}
+
+struct Builder {
+    roots: Vec<Box<dyn Any>>,
+    top: Vec<Value>,
+}
+
+fn parse_item(vm: &mut vm::Vm, b: &mut Builder, s: &[u8], pos: &mut usize) -> Value {
+    let c = s[*pos];
+    *pos += 1;
+    let take_while = |pos: &mut usize, f: &dyn Fn(u8) -> bool| -> String {
+        let st = *pos;
+        while *pos < s.len() && f(s[*pos]) {
+            *pos += 1;
+        }
+        String::from_utf8(s[st..*pos].to_vec()).unwrap()
+    };
+    match c {
+        b'z' => Value::None,
+        b'f' => Value::Boolean(false),
+        b't' => Value::Boolean(true),
+        b'n' => {
+            let d = take_while(pos, &|c| c.is_ascii_digit());
+            Value::Number(f64::from_bits(d.parse::<u64>().expect("bits")))
+        }
+        b's' => {
+            let h = take_while(pos, &|c| c.is_ascii_hexdigit());
+            let text = String::from_utf8(crate::unhex(&h)).expect("utf8");
+            Value::ObjString(vm.new_gc_obj_string(&text))
+        }
+        b'c' => {
+            let h = take_while(pos, &|c| c.is_ascii_hexdigit());
+            let name = String::from_utf8(crate::unhex(&h)).expect("utf8");
+            vm.global("main", &name).expect("no such global")
+        }
+        b'r' => {
+            let a = take_while(pos, &|c| c.is_ascii_digit() || c == b'-');
+            assert!(s[*pos] == b':');
+            *pos += 1;
+            let e = take_while(pos, &|c| c.is_ascii_digit() || c == b'-');
+            let r = vm.new_root_obj_range(a.parse().expect("begin"), e.parse().expect("end"));
+            let v = Value::ObjRange(r.as_gc());
+            b.roots.push(Box::new(r));
+            v
+        }
+        b'(' => {
+            let mut elems = Vec::new();
+            if s[*pos] == b')' {
+                *pos += 1;
+            } else {
+                loop {
+                    elems.push(parse_item(vm, b, s, pos));
+                    let d = s[*pos];
+                    *pos += 1;
+                    if d == b')' {
+                        break;
+                    }
+                    assert!(d == b',');
+                }
+            }
+            let r = vm.new_root_obj_tuple(elems);
+            let v = Value::ObjTuple(r.as_gc());
+            b.roots.push(Box::new(r));
+            v
+        }
+        b'v' => {
+            let r = vm.new_root_obj_vec();
+            let v = Value::ObjVec(r.as_gc());
+            b.roots.push(Box::new(r));
+            v
+        }
+        b'm' => {
+            let r = vm.new_root_obj_hash_map();
+            let v = Value::ObjHashMap(r.as_gc());
+            b.roots.push(Box::new(r));
+            v
+        }
+        b'@' => {
+            let d = take_while(pos, &|c| c.is_ascii_digit());
+            b.top[d.parse::<usize>().expect("index")]
+        }
+        other => panic!("c12vals: bad item code {}", other as char),
+    }
+}
+
+fn cmd_vals(args: &[&str], out: &mut Vec<String>) {
+    let mut vm = crate::new_vm();
+    let mut b = Builder { roots: Vec::new(), top: Vec::new() };
+    for a in args {
+        if let Some(h) = a.strip_prefix('p') {
+            // prelude: a yarel snippet run first (defines the globals that `c<name>` items look up)
+            let r = vm::interpret(&mut vm, crate::unhex_str(h), None);
+            if let Err(e) = r {
+                out.push(format!("? prelude failed: {}", e));
+            }
+            continue;
+        }
+        let mut pos = 0usize;
+        let v = parse_item(&mut vm, &mut b, a.as_bytes(), &mut pos);
+        assert!(pos == a.len(), "c12vals: trailing text in item");
+        b.top.push(v);
+    }
+    for (i, v) in b.top.iter().enumerate() {
+        let v = *v;
+        let r = std::panic::catch_unwind(std::panic::AssertUnwindSafe(|| {
+            let mut h = Recorder::default();
+            v.hash(&mut h);
+            h
+        }));
+        let hs = match r {
+            Ok(h) if h.u64s.len() == 1 && h.other == 0 => h.u64s[0].to_string(),
+            Ok(h) => format!("?{}/{}", h.u64s.len(), h.other),
+            Err(_) => "P".to_owned(),
+        };
+        out.push(format!("V {} {} {}", i, hs, crate::hex(format!("{}", v).as_bytes())));
+    }
+    for (i, v) in b.top.iter().enumerate() {
+        vm.set_global("main", "x", *v);
+        let r = vm::interpret(&mut vm, "var q = {x: 1};".to_owned(), None);
+        match r {
+            Ok(_) => out.push(format!("H {} 1 -", i)),
+            Err(e) if matches!(e.kind(), yarel::error::ErrorKind::ValueError) => {
+                let m = e.messages().first().cloned().unwrap_or_default();
+                out.push(format!("H {} 0 {}", i, crate::hex(m.as_bytes())));
+            }
+            Err(e) => out.push(format!("H {} ? {}", i, crate::hex(crate::kind_name(e.kind()).as_bytes()))),
+        }
+    }
+    vm.set_global("main", "x", Value::None);
+    for (i, v) in b.top.iter().enumerate() {
+        let row: String = b.top.iter().map(|w| if *v == *w { '1' } else { '0' }).collect();
+        out.push(format!("E {} {}", i, row));
+    }
+}
+
 pub fn dispatch(cmd: &str, args: &[&str], out: &mut Vec<String>) -> bool {
-    false
+    match cmd {
+        "c12vals" => cmd_vals(args, out),
+        _ => return false,
+    }
+    true
 }
